@@ -20,10 +20,17 @@ func symLines(label string, n int) []string {
 // equality of lines, so the equality partition of the p+q lines is the
 // complete abstraction.
 func H_C13_opcodes() {
-	p := vxrt.Len("p", 0, vxrt.Param("p", 3))
-	q := vxrt.Len("q", 0, vxrt.Param("q", 3))
+	p := vxrt.Len("p", vxrt.Param("pmin", 0), vxrt.Param("p", 3))
+	q := vxrt.Len("q", vxrt.Param("qmin", 0), vxrt.Param("q", 3))
 	a := symLines("a", p)
 	b := symLines("b", q)
+	if k := vxrt.Param("alphabet", 0); k > 0 {
+		// lines over a k-letter alphabet: bounds the number of equality patterns,
+		// which lets longer sequences be covered completely
+		for _, l := range append(append([]string{}, a...), b...) {
+			vxrt.Assume(vxrt.And(l[0] >= 'a', l[0] < byte('a'+k)))
+		}
+	}
 	checkOpcodes(a, b)
 }
 
